@@ -2,6 +2,10 @@ package main
 
 import (
 	"fmt"
+	"math"
+	"math/rand"
+
+	"github.com/yaricom/goNEAT/v4/neat/genetics"
 )
 
 // runners of the population-level properties over epoch histories (epoch.go, phased.go)
@@ -81,9 +85,43 @@ func runEpochProp(r *Run, prop string) error {
 	return nil
 }
 
+// c10RoundingTie is the designated demonstration of a recorded finding: two raw fitness values one ulp
+// apart tie after the division by the species size, the stable sort keeps the earlier organism first, and
+// the strictly fittest organism is not the champion: its genome is not copied unchanged.
+func c10RoundingTie(r *Run) {
+	quiet()
+	opts := baseOptions()
+	opts.PopSize, opts.CompatThreshold, opts.AgeSignificance, opts.BabiesStolen = 6, 6, 1, 0
+	in := map[string]interface{}{"pop_size": 6, "seed": 42, "fitness": "[7, nextafter(7,8), 1, 2, 3, 4]", "start": "startGenomes()[0]"}
+	rand.Seed(42)
+	pop, err := genetics.NewPopulation(startGenomes()[0], opts)
+	if err != nil {
+		return
+	}
+	fits := []float64{7, math.Nextafter(7, 8), 1, 2, 3, 4}
+	for i, o := range pop.Organisms {
+		o.Fitness = fits[i]
+	}
+	best := snap(pop.Organisms[1].Genotype)
+	quotaOK := len(pop.Species) == 1
+	ex := &genetics.SequentialPopulationEpochExecutor{}
+	if err := ex.NextEpoch(opts.NeatContext(), 0, pop); err != nil || !quotaOK {
+		return
+	}
+	for _, o := range pop.Organisms {
+		if best.eq(snap(o.Genotype)) {
+			return
+		}
+	}
+	r.Fail(Failure{Key: "champion-rounding-tie-1ulp", What: "the strictly fittest organism (by one ulp) of a species with quota 6 has no unmodified copy in the next generation: its adjusted fitness ties with another member's after the division by the species size", Input: in})
+}
+
 func runPhasedProp(r *Run, prop string) error {
 	r.Res.Rule = "same population generator as C02; the three phases of the sequential executor are driven separately so that quotas, parents and champions can be observed between them; " +
 		"non-trivial = >= 2 species at some epoch (C09) / >= 1 species with quota > 5 (C10); distinct by (seed, options)"
+	if prop == "C10" {
+		c10RoundingTie(r)
+	}
 	// the tie between model and code for this check: whole-epoch correspondence through the public NextEpoch
 	cf := r.NewCaseFile(0, "Res F64 Genome Options GenomeLit EpochCases "+prop+"Cases", "epoch_case")
 	shard, per := 0, 0
